@@ -228,6 +228,9 @@ static str apply(String & s, const std::vector<str> & a, bool allowAlias, String
    if (c == "wosh"){prod = new String(s.WithoutSuffix(CH(1), U(a[2]))); return "r";}
    if (c == "woph"){prod = new String(s.WithoutPrefix(CH(1), U(a[2]))); return "r";}
    if (c == "wons"){uint32 v = 12345; prod = new String(s.WithoutNumericSuffix(&v)); return "ru"+num(v);}
+   if (c == "wiw")  {SA(2); CBuf sep(unhex(a[3])); prod = new String(s.WithInsertedWord(U(a[1]), S2, sep._p)); if (*prod != s.WithInsertedWord(U(a[1]), S2(), sep._p)) complaint = "WithInsertedWord(String) != (cstr)"; return "r";}
+   if (c == "waw")  {SA(1); CBuf sep(unhex(a[2])); prod = new String(s.WithAppendedWord(S1, sep._p)); if (*prod != s.WithAppendedWord(S1(), sep._p)) complaint = "WithAppendedWord(String) != (cstr)"; return "r";}
+   if (c == "wpw")  {SA(1); CBuf sep(unhex(a[2])); prod = new String(s.WithPrependedWord(S1, sep._p)); return "r";}
    if (c == "wsfh") {prod = new String(s.WithSuffix(CH(1))); return "r";}
    if (c == "wpfh") {prod = new String(s.WithPrefix(CH(1))); return "r";}
    if (c == "wosfi"){SA(1); prod = new String(s.WithoutSuffixIgnoreCase(S1, U(a[2]))); return "r";}
@@ -402,6 +405,26 @@ static str ref_apply(str & s, const std::vector<str> & a, bool & hasProd, str & 
    if (c == "wosh"){prod = s; uint32 max = U(a[2]); while((max > 0)&&(!prod.empty())&&(prod[prod.size()-1] == RH(1))) {prod.erase(prod.size()-1); max--;} return "r";}
    if (c == "woph"){prod = s; uint32 max = U(a[2]); while((max > 0)&&(!prod.empty())&&(prod[0] == RH(1))) {prod.erase(0, 1); max--;} return "r";}
    if (c == "wons"){size_t i = s.size(); while((i>0)&&(isdig(s[i-1]))) i--; unsigned long long v = 0; for (size_t j=i; j<s.size(); j++) v = v*10+(unsigned long long)(s[j]-'0'); prod = s.substr(0, i); return "ru"+num((uint32_t)v);}
+   if ((c == "wiw")||(c == "waw")||(c == "wpw"))
+   {
+      const str w = (c == "wiw") ? RS(2) : RS(1);
+      const str sep = unhex((c == "wiw") ? a[3] : a[2]);
+      const uint32 idx = (c == "wiw") ? U(a[1]) : ((c == "waw") ? MUSCLE_NO_LIMIT : 0);
+      if (w.empty()) prod = s;
+      else if (sep.empty()) prod = ins(s, idx, w);
+      else if (idx >= s.size()) prod = ((s.empty())||(ends(s, sep))||(starts(w, sep))) ? (s+w) : (s+sep+w);
+      else if (idx == 0) prod = ((s.empty())||(starts(s, sep))||(ends(w, sep))) ? (w+s) : (w+sep+s);
+      else
+      {
+         const str head = s.substr(0, idx), tail = s.substr(idx);
+         str r = head;
+         if ((!r.empty())&&(!ends(r, sep))&&(!starts(w, sep))) r += sep;
+         r += w;
+         if ((!tail.empty())&&(!ends(r, sep))&&(!starts(tail, sep))) r += sep;
+         prod = r + tail;
+      }
+      return "r";
+   }
    if (c == "wsfh") {prod = s; if (!((!s.empty())&&(s[s.size()-1] == RH(1)))&&(RH(1) != 0)) prod += RH(1); return "r";}
    if (c == "wpfh") {prod = s; if ((((s.empty()) ? '\0' : s[0]) != RH(1))&&(RH(1) != 0)) prod = str(1, RH(1))+s; return "r";}
    if (c == "wosfi"){prod = s; const str x = lower(RS(1)); uint32 max = U(a[2]); if (!x.empty()) while((max > 0)&&(ends(lower(prod), x))) {prod.erase(prod.size()-x.size()); max--;} return "r";}
